@@ -118,13 +118,13 @@ def _opt_identity(a):
 
 class C02(vlib.Driver):
     pid = "C02"
-    coq_dirs = ("Evo",)
+    coq_dirs = ("Evo", "C03")     # C03/Model.v: the concrete module semantics that instantiate arch_mutate
     preamble = ("From Coq Require Import NArith QArith.\nFrom AgileV Require Import Evo.Heap Evo.Evo C02.Model C02.Check.\n"
                 "Open Scope N_scope.")
     rule = ("history = (algorithm, space family, shared/unshared encoders, net_config kind, population size, step-kind sequence) "
             "over {Mutations.mutation(population) with scripted or drawn kinds per member, act, learn, score, select, discard}. "
-            "Distinct = distinct key.  Non-trivial = >= 1 learn, >= 1 population mutation with a non-'none' kind and a learn "
-            "of a different member after it.")
+            "Distinct = distinct key.  Non-trivial = >= 1 learn, >= 1 population mutation with a non-'none' kind and, after it, a learn "
+            "of two different members (of the only member for a population of one).")
     trusted_base = ["hand-written model coq/theories/Evo/{Heap,Evo}.v + coq/theories/C02/Model.v",
                     "correspondence harness harness/evo.py + harness/c02.py (slot extraction through state_dict/data_ptr/id, "
                     "value fingerprints, mutation kinds scripted through the Mutations object's own generator, scripted "
@@ -260,9 +260,9 @@ class C02(vlib.Driver):
                 q = tier == "quick"
                 if not q or (fam in QUICK_DEFAULT.get(algo, []) and not share) or (share and fam == "vector"):
                     cases.append(methods(algo, fam, share, "default", 1))
-                if not q or (fam in QUICK_ATMAX.get(algo, []) and not share) or (share and fam == "vector"):
+                if (not q and fam in ("vector", "image", "dictimg")) or (q and fam in QUICK_ATMAX.get(algo, []) and not share) or (q and share and fam == "vector"):
                     cases.append(methods(algo, fam, share, "atmax", 2))
-                if not q or (fam in QUICK_ATMIN.get(algo, []) and not share):
+                if (not q and fam in ("vector", "image")) or (q and fam in QUICK_ATMIN.get(algo, []) and not share):
                     cases.append(methods(algo, fam, share, "atmin", 3))
         if only == "methods":
             cases = [c for c in cases if c["ops"] and c["ops"][0][0] == "all_methods"]
@@ -440,6 +440,13 @@ class C02(vlib.Driver):
                             tr[n] = {"full": [json.dumps(before_init[i][n]), json.dumps(after_init)],
                                      "sub": [_sub_json(before_init[i][n], meth), _sub_json(after_init, meth)]}
                             tr[n]["delta"] = _delta(tr[n]["sub"][0], tr[n]["sub"][1])
+                            # the sub-agents of a multi-agent network list receive the same change (when they were equal)
+                            tr[n]["intra"] = None
+                            tr[n]["delta_raw"] = tr[n]["delta"]
+                            if tr[n]["delta"] is not None:
+                                d_, b_ = json.loads(tr[n]["delta"]), json.loads(tr[n]["sub"][0])
+                                if len(d_) > 1 and all(x == b_[0] for x in b_):
+                                    tr[n]["intra"] = all(x == d_[0] for x in d_)
                         # a network's delta is comparable with the policy's when the entries either of them changed, and
                         # the limits, had the same values in both before the mutation (the same call on different sizes
                         # legitimately has a different effect), and its configuration is maintained at all (the encoder
@@ -650,6 +657,9 @@ class C02(vlib.Driver):
                     out.append(Violation("shape", sig("shape", "calls"),
                                          f"{what}: {len(rec['kinds'])} mutation functions were applied to {rec['len_after']} members"))
                     continue
+                if op[1].get("mutate_elite") is False and rec["kinds"] and rec["kinds"][0] != "none":
+                    out.append(Violation("elite", sig("elite", rec["kinds"][0]),
+                                         f"{what}: mutate_elite=False but the first member (the elite) received a '{rec['kinds'][0]}' mutation"))
                 for i, kind in enumerate(rec["kinds"]):
                     mem, st = rec["members"][i], after[i]["struct"]
                     label = rec["labels"][i]
@@ -700,6 +710,10 @@ class C02(vlib.Driver):
                         pol = mem["policy"]
                         pt = ar["trans"][pol]
                         for n, tr in ar["trans"].items():
+                            if tr.get("intra") is False:
+                                out.append(Violation("arch-follow", sig("archsubagents", (ar["method"] or "noop").split(".")[-1]),
+                                                     f"{who}: the sub-agent networks of {n} were equal before the mutation and changed differently: {str(tr.get('delta_raw'))[:200]}"))
+                                break
                             if n == pol:
                                 continue
                             if ar["method"] is None:
@@ -777,7 +791,7 @@ class C02(vlib.Driver):
         for t, (o, r) in enumerate(zip(ops, recs)):
             if o[0] == "mutate" and any(kk != "none" for kk in r.get("kinds", [])):
                 later = {p[1] for p in ops[t + 1:] if p[0] == "train"}
-                if len(later) >= 2:
+                if len(later) >= min(2, case["pop"]):
                     return True
         return False
 
